@@ -230,6 +230,27 @@ def sigmoidAE (l : List (EV × EV)) : Except Err (List (Rat × Rat)) :=
 def tanhAE (l : List (EV × EV)) : Except Err (List (Rat × Rat)) :=
   seqE (l.map (fun p => tanhIE p.1 p.2))
 
+/-! ## `activation.tanh` = `1 - 2 / (1 + exp(2 * x))` (since `fa5d3fa`; before: the quotient form)
+
+The operations the code performs, in order: `exp(2 * x)` (values supplied), `1 + ·` (`__radd__`),
+`2 / ·` (`__rtruediv__`: zero test, left operand ≥ 0 so the bounds swap), `1 - ·` (`__rsub__`), each
+through the Interval constructor.  With `inf` for an overflowed `exp`. -/
+def atanhIE (e2l e2h : EV) : Except Err (Rat × Rat) :=
+  match mkIE e2l e2h with                                 -- exp(2 * x)
+  | .error e => .error e
+  | .ok e =>
+    match mkIE e.1.add1 e.2.add1 with                     -- 1 + ·
+    | .error e => .error e
+    | .ok d =>
+      if d.1.le0 && d.2.ge0 then .error .ZeroDivision     -- 2 / · : 0 in the divisor
+      else
+        match mkI (EV.rdiv 2 d.2) (EV.rdiv 2 d.1) with
+        | .error e => .error e
+        | .ok q => mkI (1 - q.2) (1 - q.1)                -- 1 - ·
+
+def atanhAE (l : List (EV × EV)) : Except Err (List (Rat × Rat)) :=
+  seqE (l.map (fun p => atanhIE p.1 p.2))
+
 /-! ## sin, cos (CORA case analysis on the reduced endpoints) -/
 
 inductive Shape where
